@@ -73,7 +73,7 @@ impl Prop for C14 {
     }
 
     fn run_case(&mut self, _idx: u64, rng: &mut Rng, ctx: &mut Ctx) {
-        let o = Opts { data: rng.coin(), func: rng.chance(1, 3), tron: false, stop: true, max_lines: 30, input: false, frac: rng.coin() };
+        let o = Opts { data: rng.coin(), func: rng.chance(1, 3), tron: false, stop: true, max_lines: 30, input: false, frac: rng.coin(), strings: rng.coin() };
         let mut p = gen::generate(rng, o);
         // unreachable tail with the command forms that carry line numbers
         let labels: Vec<usize> = p.lines.iter().map(|l| l.label).collect();
